@@ -23,6 +23,8 @@ EXPLANATION += (' ' + 'SCALE/operand-is-input: both PCM conversions scale their 
 TRUSTED = ['numpy and scipy.io.wavfile semantics']
 NOT_DECIDED = ['that int16 -> float32 -> int16 is the identity on all 65 536 values (float rounding + truncating astype)', 'scipy WAV encode/decode']
 ASSUMPTIONS = []
+# rules whose verdict does not depend on how the statements are arranged (dataflow / normal forms); all other rules are shape rules
+ROBUST = ('SCALE/operand-is-input', 'WAV/samples-unmodified', 'CROP', 'STEREO/slots')
 FLOORS = {'SCALE': 3, 'CROP': 3, 'REPEAT': 3, 'STEREO': 3, 'WAV': 2}
 
 
@@ -36,15 +38,18 @@ def run(ctx):
   r1 = i2f.node.body[-1]
   r2 = f2i.node.body[-1]
   s1 = s2 = None
-  ok1 = isinstance(r1, ast.Return) and isinstance(r1.value, ast.BinOp) and isinstance(r1.value.op, ast.Div)
+  # look through temporaries and hoisted module constants
+  v1 = U.expand_locals(i2f.node, r1.value, i2f.module.assigns) if isinstance(r1, ast.Return) and r1.value is not None else None
+  v2 = U.expand_locals(f2i.node, r2.value, f2i.module.assigns) if isinstance(r2, ast.Return) and r2.value is not None else None
+  ok1 = isinstance(v1, ast.BinOp) and isinstance(v1.op, ast.Div)
   if ok1:
-    s1 = norm_text(r1.value.right)
-    ok1 = 'astype(np.float32)' in norm_text(r1.value.left)
+    s1 = norm_text(v1.right)
+    ok1 = norm_text(v1.left) == '%s.astype(np.float32)' % i2f.params()[0]
   ctx.ob('SCALE/to-float', i2f, r1, ok1, 'float = int16.astype(float32) / scale' if ok1 else 'int16 -> float is not astype(float32) / scale')
-  ok2 = isinstance(r2, ast.Return) and isinstance(r2.value, ast.Call) and isinstance(r2.value.func, ast.Attribute) and r2.value.func.attr == 'astype' and \
-      norm_text(r2.value.args[0]) == 'np.int16' and isinstance(r2.value.func.value, ast.BinOp) and isinstance(r2.value.func.value.op, ast.Mult)
+  ok2 = isinstance(v2, ast.Call) and isinstance(v2.func, ast.Attribute) and v2.func.attr == 'astype' and \
+      norm_text(v2.args[0]) == 'np.int16' and isinstance(v2.func.value, ast.BinOp) and isinstance(v2.func.value.op, ast.Mult)
   if ok2:
-    m = r2.value.func.value
+    m = v2.func.value
     s2 = norm_text(m.right) if norm_text(m.left) == f2i.params()[0] else norm_text(m.left)
   ctx.ob('SCALE/to-int', f2i, r2, ok2, 'int16 = (float * scale).astype(int16)' if ok2 else 'float -> int16 is not (y * scale).astype(np.int16)')
   # the value that is scaled is the caller's array itself: any other rebinding (clipping, rounding, offsetting) changes some of the 65536 values
@@ -54,7 +59,8 @@ def run(ctx):
            not (isinstance(st, ast.Assign) and isinstance(st.value, ast.Call) and dotted(st.value.func) in ('np.asarray', 'np.asanyarray', 'numpy.asarray') and
                 len(st.value.args) == 1 and norm_text(st.value.args[0]) == prm)]
     ret = fi.node.body[-1]
-    uses = isinstance(ret, ast.Return) and any(isinstance(n, ast.Name) and n.id == prm for n in ast.walk(ret))
+    rv = U.expand_locals(fi.node, ret.value, fi.module.assigns) if isinstance(ret, ast.Return) and ret.value is not None else None
+    uses = rv is not None and any(isinstance(n, ast.Name) and n.id == prm for n in ast.walk(rv))
     ok = not reb and uses
     ctx.ob('SCALE/operand-is-input', fi, reb[0] if reb else ret, ok, 'the samples that are scaled are the input array, unmodified' if ok else
            '%s %s before scaling: some sample values no longer round-trip' % (fi.name, 'rebinds its input (%s)' % norm_text(reb[0]) if reb else 'does not scale its input'),
@@ -63,8 +69,8 @@ def run(ctx):
   ctx.ob('SCALE/same-constant', i2f, r1, ok, 'both directions use np.iinfo(np.int16).max' if ok else
          'the two PCM conversions scale by different expressions (%s vs %s): the round trip is not the identity' % (s1, s2), construct='one PCM scale both ways')
   for fi, needle in ((i2f, 'np.int16'), (f2i, 'np.floating')):
-    g = fi.node.body[1] if isinstance(fi.node.body[0], ast.Expr) else fi.node.body[0]
-    ok = isinstance(g, ast.If) and needle in norm_text(g.test) and any(isinstance(x, ast.Raise) for x in g.body)
+    g = next((s_ for s_ in fi.node.body if isinstance(s_, ast.If)), None)
+    ok = g is not None and needle in norm_text(U.expand_locals(fi.node, g.test, fi.module.assigns)) and any(isinstance(x, ast.Raise) for x in g.body)
     ctx.ob('SCALE/dtype-guard', fi, g, ok, 'the input dtype is checked' if ok else '%s does not reject inputs of the wrong dtype' % fi.name)
   # crops
   bounds = {}
@@ -111,7 +117,22 @@ def run(ctx):
       ok = False
   ctx.ob('REPEAT/ceil', rp, rp.node, ok, 'repeats = ceil(duration / (len(samples) / sample_rate))' if ok else 'the repeat count is not ceil(duration * rate / len): the result can be shorter than requested', construct='repeat count')
   cc = env.get('repeated_samples')
-  ok = cc is not None and norm_text(cc).replace(' ', '') == 'np.concatenate([samples]*num_repeats)'
+  if cc is None:
+    cat = [c for c in U.calls_in(rp.node) if (dotted(c.func) or '').endswith('concatenate')]
+    cc = U.expand_locals(rp.node, cat[0], None) if len(cat) == 1 else None
+  else:
+    cc = U.expand_locals(rp.node, cc, None)
+  def cyclic(arg):
+    # [samples] * n   or   [samples for _ in range(n)]
+    if isinstance(arg, ast.BinOp) and isinstance(arg.op, ast.Mult):
+      sides = [arg.left, arg.right]
+      lst = [x for x in sides if isinstance(x, ast.List) and len(x.elts) == 1 and norm_text(x.elts[0]) == 'samples']
+      return len(lst) == 1 and any(norm_text(x) == 'int(math.ceil(duration / (len(samples) / sample_rate)))' or norm_text(x) == 'num_repeats' for x in sides)
+    if isinstance(arg, ast.ListComp) and len(arg.generators) == 1 and not arg.generators[0].ifs and norm_text(arg.elt) == 'samples':
+      it = arg.generators[0].iter
+      return isinstance(it, ast.Call) and dotted(it.func) == 'range' and len(it.args) == 1
+    return False
+  ok = isinstance(cc, ast.Call) and (dotted(cc.func) or '').endswith('concatenate') and len(cc.args) == 1 and cyclic(cc.args[0])
   ctx.ob('REPEAT/cyclic', rp, rp.node, ok, 'the input is concatenated num_repeats times' if ok else 'the repeated signal is not [samples] * num_repeats concatenated', construct='cyclic repetition')
   cr = [c for c in U.calls_in(rp.node) if dotted(c.func) == 'crop_samples']
   ok = len(cr) == 1
@@ -120,7 +141,9 @@ def run(ctx):
     args = list(cr[0].args)
     beg = kw.get('crop_beginning_seconds', args[2] if len(args) > 2 else None)
     ln = kw.get('total_length_seconds', args[3] if len(args) > 3 else None)
-    ok = norm_text(args[0]) == 'repeated_samples' and norm_text(args[1]) == 'sample_rate' and beg is not None and U.const_value(beg) == 0 and ln is not None and norm_text(ln) == 'duration'
+    a0 = U.expand_locals(rp.node, args[0], None) if args else None
+    ok = isinstance(a0, ast.Call) and (dotted(a0.func) or '').endswith('concatenate') and norm_text(args[1]) == 'sample_rate' and beg is not None and U.const_value(beg) == 0 and \
+        ln is not None and norm_text(ln) == 'duration'
   ctx.ob('REPEAT/crop', rp, cr[0] if cr else rp.node, ok, 'the repetition is cropped to [0, duration)' if ok else 'the repeated signal is not cropped at [0, duration)', construct='crop to duration')
   # stereo
   ms = ctx.func('audio_io:make_stereo')
@@ -128,6 +151,28 @@ def run(ctx):
   g = next((s for s in ms.node.body if isinstance(s, ast.If)), None)
   ok = g is not None and norm_text(g.test) == '%s.dtype != %s.dtype' % (l, r) and any(isinstance(x, ast.Raise) and 'AudioIODataTypeError' in norm_text(x) for x in g.body)
   ctx.ob('STEREO/dtype', ms, g or ms.node, ok, 'channels of different dtype are rejected' if ok else 'make_stereo does not reject channels of different dtype')
+  # dataflow: wherever the two channels are put side by side, slot 0 is made from the left channel only and slot 1 from the right only
+  mixed = []
+  pairs = 0
+  for d in ast.walk(ms.node):
+    if isinstance(d, (ast.List, ast.Tuple)) and len(d.elts) == 2 and isinstance(getattr(d, 'ctx', None), ast.Load):
+      par = U.parent(ms.node, d)
+      joins = isinstance(par, ast.Call) and d in par.args and (dotted(par.func) or '').split('.')[-1] in (
+          'stack', 'array', 'concatenate', 'column_stack', 'vstack', 'hstack', 'dstack', 'zip', 'asarray')
+      bound = isinstance(par, ast.Assign) and par.value is d
+      if not (joins or bound):
+        continue      # e.g. a shape tuple
+      deps = []
+      for e in d.elts:
+        x = U.expand_locals(ms.node, e, None)
+        deps.append(set(n.id for n in ast.walk(x) if isinstance(n, ast.Name) and n.id in (l, r)))
+      if deps[0] or deps[1]:
+        pairs += 1
+        if not (deps[0] <= {l} and deps[1] <= {r} and deps[0] and deps[1]):
+          mixed.append(d)
+  ctx.ob('STEREO/slots', ms, mixed[0] if mixed else ms.node, pairs >= 1 and not mixed, 'every (x, y) pair built from the channels is (from left only, from right only)' if pairs >= 1 and not mixed else
+         ('a pair of channel-derived values does not keep left in slot 0 and right in slot 1 (%s): which channel lands in which column depends on more than its side' % norm_text(mixed[0]) if mixed
+          else 'no (left, right) pair found in make_stereo'), construct='make_stereo keeps (left, right) slots')
   t = norm_text(ms.node)
   ok = 'np.array([len(%s), len(%s)])' % (l, r) in t and 'np.concatenate([%s, %s])' % (l, r) in t
   ctx.ob('STEREO/order', ms, ms.node, ok, 'lengths and data are taken in (left, right) order' if ok else 'make_stereo does not lay out left then right consistently')
